@@ -56,7 +56,7 @@ inc = header_directory('include', include='**/*.h')
 def no_wip(path):
     return (FindResult.exclude if 'wip' in path.basename()
             else FindResult.include)
-tools = find_files('tools/*.c', filter=no_wip)
+tools = find_files('tools/*.c'{custom})
 gen = find_files('generated/*.c')
 prog = executable('prog', ['main.c'] + srcs + plat + tools + gen,
                   includes=[inc])
@@ -116,6 +116,7 @@ class RegenMachine(RuleBasedStateMachine):
     backend = 'make'
     use_extra = False
     use_pkg = False     # pkg_config(): the regeneration has several outputs
+    use_custom = False  # one find_files() call has a custom filter function
 
     def __init__(self):
         super().__init__()
@@ -143,6 +144,7 @@ class RegenMachine(RuleBasedStateMachine):
         v = Violation(key, msg, {'backend': self.backend,
                                  'use_extra': self.use_extra,
                                  'use_pkg': self.use_pkg,
+                                 'use_custom': self.use_custom,
                                  'history': self.history})
         self._vf_holder['last'] = v
         raise v
@@ -172,6 +174,9 @@ class RegenMachine(RuleBasedStateMachine):
                     extra=", extra='*.md'" if self.use_extra else '',
                     pkg=("pkg_config('c08pkg', version='1.0', libs=[lib])"
                          if self.use_pkg else ''),
+                    # (a custom predicate cannot be saved in the find cache,
+                    # which disables the lazy shortcut: only in some runs)
+                    custom=', filter=no_wip' if self.use_custom else '',
                     flags=flags('build')))
         if 'sub' in which:
             sandbox.write_file(os.path.join(self.src, 'sub', 'build.bfg'),
@@ -481,27 +486,28 @@ def collect(bld):
     return out
 
 
-def _machine(backend, use_extra, use_pkg=False):
-    return type('RegenMachine_{}_{}_{}'.format(backend, int(use_extra),
-                                               int(use_pkg)),
-                (RegenMachine,), {'backend': backend,
-                                  'use_extra': use_extra,
-                                  'use_pkg': use_pkg})
+def _machine(backend, use_extra, use_pkg=False, use_custom=False):
+    return type('RegenMachine_{}_{}_{}_{}'.format(
+        backend, int(use_extra), int(use_pkg), int(use_custom)),
+        (RegenMachine,), {'backend': backend, 'use_extra': use_extra,
+                          'use_pkg': use_pkg, 'use_custom': use_custom})
 
 
-def _run(rec, seed, budget, shard, nshards, backend, use_pkg=False):
+def _run(rec, seed, budget, shard, nshards, backend, use_pkg=False,
+         use_custom=False):
     # `extra=` is left out while the known finding about the dist-list order
     # is open (counted as excluded)
     use_extra = not rec.is_open('regen/differs/dist-order-with-extra')
     if not use_extra:
         rec.excluded(budget)
-    run_machine(rec, _machine(backend, use_extra, use_pkg), budget, 16, seed)
+    run_machine(rec, _machine(backend, use_extra, use_pkg, use_custom), budget,
+                16, seed)
 
 
 def replay_history(case, rec):
     """Re-run a recorded history without Hypothesis."""
     M = _machine(case['backend'], case.get('use_extra', False),
-                 case.get('use_pkg', False))
+                 case.get('use_pkg', False), case.get('use_custom', False))
     holder = {'last': None}
     M._vf_holder = holder
     M._vf_rec = rec
@@ -575,18 +581,30 @@ def _run_core(rec, seed, budget, shard, nshards):
     for backend in ('make', 'ninja'):
         for which in ('build', 'sub', 'options', 'optsub', 'toolchain'):
             for kind in ('semantic', 'comment'):
-                for pkg in (False, True):
+                for pkg, custom in ((False, False), (True, False),
+                                    (False, True)):
                     jobs.append({'backend': backend, 'use_extra': False,
-                                 'use_pkg': pkg, 'history': [
+                                 'use_pkg': pkg, 'use_custom': custom,
+                                 'history': [
                                      ['configure'], ['build'],
                                      ['edit_script', which, kind],
                                      ['build'], ['build']]})
+        # a file appears where one of the find_files()/directory() calls looks
+        for rel in ('src/zz_new.c', 'tools/t2.c', 'include/zz_new.h',
+                    'assets/n.png', 'data/n.dat', 'sub/zz_new.c'):
+            for pkg, custom in ((False, False), (True, False), (False, True)):
+                jobs.append({'backend': backend, 'use_extra': False,
+                             'use_pkg': pkg, 'use_custom': custom,
+                             'history': [['configure'], ['build'],
+                                         ['add_file', rel], ['build'],
+                                         ['build']]})
     for k, case in enumerate(jobs):
         if k % nshards != shard:
             continue
         rec.case({case['backend'], 'edit:' + case['history'][2][1]},
                  nontrivial=[case['backend'], case['use_pkg'],
-                             case['history'][2][1:]], sample=case)
+                             case['use_custom'], case['history'][2][1:]],
+                 sample=case)
         try:
             replay_history(case, rec)
         except Violation as v:
@@ -602,7 +620,9 @@ def tasks(tier):
             Task('regen-make-pkg', _run, quick=16 * 3, thorough=16 * 30,
                  backend='make', use_pkg=True),
             Task('regen-ninja-pkg', _run, quick=16 * 2, thorough=16 * 30,
-                 backend='ninja', use_pkg=True)]
+                 backend='ninja', use_pkg=True),
+            Task('regen-make-custom', _run, quick=16 * 2, thorough=16 * 30,
+                 backend='make', use_custom=True)]
 
 
 def replay(task, case, rec):
